@@ -3,7 +3,7 @@
 import json, os
 from vp import val, coqrun, rustrun
 from vp.val import cN, cZ, cbool, clist, cpair, cbytes
-from gen import c17wire
+from gen import c17wire, c17enum
 
 # ---------------------------------------------------------------- constants
 ORIGIN, AS_PATH, NEXTHOP, MED, LOCAL_PREF, ATOMIC, AGGREGATOR, COMMUNITY, ORIGINATOR_ID, CLUSTER_LIST = range(1, 11)
@@ -45,10 +45,11 @@ def wf_attr(a):
             if code == ORIGIN and p[0] > 2: return 'ORIGIN %d > 2' % p[0]
             return None
         if kind != 1: return 'attribute %d not held as Bin' % code
-        if any(not (0 <= x < 256) for x in p): return 'byte outside u8'
-        n = len(p)
+        digest = bool(p) and p[0] == -7       # long values are printed as a digest: only the length is judged here
+        if not digest and any(not (0 <= x < 256) for x in p): return 'byte outside u8'
+        n = p[1] if digest else len(p)
         if n > 65535: return 'value of %d bytes is longer than an attribute can carry' % n
-        if code == AS_PATH and not wf_as_path(p, False): return 'AS_PATH segments malformed'
+        if code == AS_PATH and not digest and not wf_as_path(p, False): return 'AS_PATH segments malformed'
         if code == NEXTHOP and n not in (4, 16): return 'NEXT_HOP length %d' % n
         if code == ATOMIC and n != 0: return 'ATOMIC_AGGREGATE with a value'
         if code == AGGREGATOR and n != 8: return 'AGGREGATOR length %d' % n
@@ -56,11 +57,13 @@ def wf_attr(a):
         if code in (COMMUNITY, CLUSTER_LIST) and n % 4: return 'length %d not a multiple of 4' % n
         if code == EXT_COMMUNITY and n % 8: return 'length %d not a multiple of 8' % n
         if code == LARGE_COMMUNITY and n % 12: return 'length %d not a multiple of 12' % n
-        if code == AS4_PATH and (n % 2 or n < 6 or not wf_as_path(p, False)): return 'AS4_PATH malformed'
+        if code == AS4_PATH and (n % 2 or n < 6 or (not digest and not wf_as_path(p, False))): return 'AS4_PATH malformed'
         if code == AS4_AGGREGATOR and n != 8: return 'AS4_AGGREGATOR length %d' % n
         return None
     if kind != 2: return 'unknown attribute %d not held opaque' % code
     if flags & 0xC0 != 0xC0: return 'unknown attribute %d stored without optional+transitive' % code
+    if p and p[0] == -7:
+        return 'value longer than an attribute can carry' if p[1] > 65535 else None
     if any(not (0 <= x < 256) for x in p): return 'byte outside u8'
     if len(p) > 65535: return 'value longer than an attribute can carry'
     return None
@@ -239,24 +242,36 @@ def extcom_to_coq(x):
     if t == 11: return '(XRedirect4 %s %s)' % (cN(x[1]), cN(x[2]))
     return 'XUnsupported'
 
+def is_rep(l): return isinstance(l, list) and len(l) == 3 and l[0] == 'rep'
+
+def expand(x):
+    """['rep', item, n] -> n copies of item, recursively"""
+    if isinstance(x, list):
+        if is_rep(x): return [expand(x[1])] * x[2]
+        return [expand(y) for y in x]
+    return x
+
+def rlist(l, render):
+    if is_rep(l): return '(N.iter %d%%N (cons %s) [])' % (l[2], render(l[1]))
+    return clist([render(y) for y in l])
+
 def api_to_coq(x):
     t = x[0]
     if t == 0: return 'AMissing'
-    if t == 1: return '(AUnknown %s %s %s)' % (cN(x[1]), cN(x[2]), cbytes(x[3]))
+    if t == 1: return '(AUnknown %s %s %s)' % (cN(x[1]), cN(x[2]), rlist(x[3], cN))
     if t == 2: return '(AOrigin %s)' % cN(x[1])
-    if t == 3: return '(AAsPath %s)' % clist(['(%s, %s)' % (cZ(s[0]), clist([cN(n) for n in s[1]])) for s in x[1]])
+    if t == 3: return '(AAsPath %s)' % rlist(x[1], lambda s: '(%s, %s)' % (cZ(s[0]), rlist(s[1], cN)))
     if t == 4: return '(ANextHop %s)' % cstr(x[1])
     if t == 5: return '(AMed %s)' % cN(x[1])
     if t == 6: return '(ALocalPref %s)' % cN(x[1])
     if t == 7: return 'AAtomicAggregate'
     if t == 8: return '(AAggregator %s %s)' % (cN(x[1]), cstr(x[2]))
-    if t == 9:
-        if x[1] and x[1][0] == 'rep': return '(ACommunities (repeat %s %d))' % (cN(x[1][1]), x[1][2])
-        return '(ACommunities %s)' % clist([cN(n) for n in x[1]])
+    if t == 9: return '(ACommunities %s)' % rlist(x[1], cN)
     if t == 10: return '(AOriginatorId %s)' % cstr(x[1])
-    if t == 11: return '(AClusterList %s)' % clist([cstr(s) for s in x[1]])
-    if t == 14: return '(AExtCommunities %s)' % clist([extcom_to_coq(e) for e in x[1]])
-    if t == 21: return '(ALargeCommunities %s)' % clist(['(%s, %s, %s)' % (cN(a), cN(b), cN(c)) for a, b, c in x[1]])
+    if t == 11: return '(AClusterList %s)' % rlist(x[1], cstr)
+    if t == 14: return '(AExtCommunities %s)' % rlist(x[1], extcom_to_coq)
+    if t == 21: return '(ALargeCommunities %s)' % rlist(x[1], lambda t3: '(%s, %s, %s)' % (cN(t3[0]), cN(t3[1]), cN(t3[2])))
+    if t == 12: return '(AMpReach %s %s)' % ('(Some (%s, %s))' % (cN(x[1][0]), cN(x[1][1])) if x[1] else 'None', clist([cstr(n) for n in x[2]]))
     return 'AOther'
 
 def v6bytes(a): return [(a >> (8 * (15 - k))) & 255 for k in range(16)]
@@ -294,7 +309,7 @@ def api_nlri_to_coq(x):
     if x[0] == 3: return '(PVpn %s %s %s %s)' % (clist([cN(l) for l in x[1]]), api_rd_to_coq(x[2]), cstr(x[3]), cN(x[4]))
     return 'POther'
 
-API_NAMES = {0: 'missing', 1: 'unknown', 2: 'origin', 3: 'as_path', 4: 'next_hop', 5: 'med', 6: 'local_pref',
+API_NAMES = {12: 'mp_reach', 0: 'missing', 1: 'unknown', 2: 'origin', 3: 'as_path', 4: 'next_hop', 5: 'med', 6: 'local_pref',
              7: 'atomic_aggregate', 8: 'aggregator', 9: 'communities', 10: 'originator_id', 11: 'cluster_list',
              14: 'ext_communities', 21: 'large_communities', 99: 'other'}
 
@@ -615,15 +630,11 @@ class Prop:
     # ---- rendering
     def case_to_val(self, c):
         if c['k'] == 0: return [0, c['flags'], c['code'], c['data']]
-        if c['k'] == 1:
-            x = c['api']
-            if x[0] == 9 and x[1] and x[1][0] == 'rep':
-                x = [9, [x[1][1]] * x[1][2]]
-            return [1, x]
+        if c['k'] == 1: return [1, expand(c['api'])]
         if c['k'] == 2: return [2, c['api']]
         if c['k'] == 3: return [3, nlri_to_valx(c['n'], out=False)]
         if c['k'] == 4: return [4, c['opts'], c['msg']]
-        if c['k'] == 5: return [5, c['fam'], c['nlri'], c['attrs'], c['id']]
+        if c['k'] == 5: return [5, c['fam'], c['nlri'], expand(c['attrs']), c['id']]
         if c['k'] == 6: return [6, c['api']]
         if c['k'] == 7: return [7, evpn_to_valx(c['e'], out=False)]
         raise ValueError(c)
@@ -643,7 +654,7 @@ class Prop:
 
     # ---- generation
     def gen_cases(self, rng, tier):
-        cases = []
+        cases = c17enum.enum_all()      # the classes enumerated on every run come first
         nw, na = (900, 1300) if tier == 'quick' else (9000, 13000)
         for code in WIRE_CODES + WIRE_SPECIAL + UNKNOWN_CODES[:6]:
             for _ in range(6):
@@ -846,6 +857,9 @@ class Prop:
         return None
 
     def classify(self, c, obs):
+        return (['enum:' + c['cls']] if 'cls' in c else []) + self._classify(c, obs)
+
+    def _classify(self, c, obs):
         if c['k'] == 0:
             kind = 'known' if c['code'] in CANON else 'unknown'
             return ['wire', 'wire:%s:%s' % (kind, 'held' if obs and obs[0] == 1 else 'not_held'),
